@@ -316,8 +316,15 @@ def run_harness(binary, sub, args, timeout=600, allow_fail=False, cpu_limit=None
         if cpu_limit:
             resource.setrlimit(resource.RLIMIT_CPU, (cpu_limit, cpu_limit + 5))
 
-    p = subprocess.run([binary, sub] + args, stdout=subprocess.PIPE, stderr=subprocess.STDOUT, text=True, timeout=timeout,
-                       preexec_fn=limits)
+    try:
+        p = subprocess.run([binary, sub] + args, stdout=subprocess.PIPE, stderr=subprocess.STDOUT, text=True, timeout=timeout,
+                           preexec_fn=limits)
+    except subprocess.TimeoutExpired as ex:
+        if not allow_fail:
+            raise ToolError("harness %s did not finish within %d s" % (sub, timeout))
+        # a process that neither finishes nor burns CPU (deadlocked, e.g. in a corrupted heap): a death like any other
+        out = ex.stdout.decode() if isinstance(ex.stdout, bytes) else (ex.stdout or "")
+        return -998, out, time.time() - t0
     if p.returncode != 0 and not allow_fail:
         sys.stderr.write(p.stdout[-3000:])
         raise ToolError("harness %s failed rc=%s" % (sub, p.returncode))
